@@ -2,6 +2,8 @@ import Gopki.Lemmas.DerLemmas
 import Gopki.Lemmas.IntLemmas
 import Gopki.Spec.Ext
 import Gopki.Model.V1
+import Gopki.Lemmas.ExtRound
+import Gopki.Lemmas.PolicyRound
 /-! # C07 — structured RFC 5280 extensions encode exactly the configured content
 
 Round trips between the model's encoders (`Gopki.Model.Extensions`, tied to the implementation byte for
@@ -79,7 +81,54 @@ theorem C07_basic_constraints_roundtrip (ca : Bool) (n : Nat) (hn : n < 256 ^ 8)
 /-- key identifiers are carried as they are: OCTET STRING for the subject's, [0] for the authority's -/
 theorem C07_ski_roundtrip (k : Bytes) (hk : k.length < 2 ^ 64) : decSki (tOctet k).enc = some k := by
   unfold decSki
-  rw [decodeDer_enc _ (by simp [tOctet, Tlv.wf, isCons, hk]; decide)]
+  rw [show tOctet k = Tlv.prim 0x04 k from rfl, decodeDer_enc _ (wf_prim 0x04 k ⟨by decide, by decide⟩ hk)]
   rfl
+
+/-- **OBJECT IDENTIFIER round trip** (used by every extension that carries OIDs): for every OID Go's
+    marshaller accepts, with arcs below 2^63, the content octets decode to the same arcs -/
+theorem C07_oid_roundtrip (arcs : List Nat) (hv : oidValid arcs = true) (hb : ∀ a ∈ arcs, a < 2 ^ 63) :
+    decOid (oidContent arcs) = some arcs := OidLemmas.decOid_oidContent arcs hv hb
+
+/-- **subjectAlternativeName**: every list of names (mail, DNS, URI as arbitrary strings; IPv4) is read back
+    from the extension value with the same kinds and the same bytes -/
+theorem C07_san_roundtrip (critical : Bool) (names : List Cert.GeneralName)
+    (hl : (encList (names.map Cert.GeneralName.marshal)).length < 2 ^ 64) :
+    decSan (Cert.newSubjectAlternativeName critical names).value = some names := ExtRound.san_roundtrip critical names hl
+
+/-- **extendedKeyUsage**: the constructor succeeds on acceptable OIDs and the value is exactly that OID list -/
+theorem C07_eku_roundtrip (critical : Bool) (usages : List Cert.Oid) (h : ∀ o ∈ usages, ExtRound.OidOk o)
+    (hl : (encList (usages.map tOid)).length < 2 ^ 64) :
+    ∃ e, Cert.newExtendedKeyUsage critical usages = .ok e ∧ e.oid = Cert.oidExtendedKeyUsage ∧ e.critical = critical ∧
+      decEku e.value = some usages := ExtRound.eku_roundtrip critical usages h hl
+
+/-- **authorityInformationAccess**: one AccessDescription per URI, method id-ad-ocsp, location the URI -/
+theorem C07_aia_roundtrip (critical : Bool) (uris : List String)
+    (hl : (encList (uris.map fun u => tSeq [tOid Cert.oidAiaOcsp, (Cert.GeneralName.uri u).marshal])).length < 2 ^ 64) :
+    decAia (Cert.newAuthorityInfoAccess critical uris).value = some (uris.map fun u => (Cert.oidAiaOcsp, Cert.GeneralName.uri u)) :=
+  ExtRound.aia_roundtrip critical uris hl
+
+/-- **INTEGER round trip**, every integer of any size and sign (policy notice numbers, serials, path lengths) -/
+theorem C07_int_roundtrip (n : Int) : decInt (intBytes n) = some n := NegInt.decInt_intBytes n
+
+/-- **certificatePolicies**: policies with acceptable OIDs, IA5 CPS URIs and user notices that have some content
+    are read back (RFC 5280) exactly: OIDs, qualifier kinds and order, organisation, notice numbers, explicit text.
+    `PolicyRound.specPolicy` is the RFC-side view of the configured policy (absent members for empty ones). -/
+theorem C07_policies_roundtrip (critical : Bool) (ps : List Cert.PolicyInfo) (h : ∀ p ∈ ps, PolicyRound.PolicyOk p)
+    (hl : (tSeq (ps.map PolicyRound.pt)).enc.length < 2 ^ 64) :
+    ∃ e, Cert.newCertificatePolicies critical ps = .ok e ∧ e.oid = Cert.oidCertificatePolicies ∧ e.critical = critical ∧
+      decPolicies e.value = some (ps.map PolicyRound.specPolicy) := PolicyRound.policies_roundtrip critical ps h hl
+
+/-- non-vacuity: a policy with a numbers-only notice meets `PolicyOk` -/
+example : PolicyRound.PolicyOk ⟨[2, 5, 29, 32, 0], some [.notice ⟨"", some [1, -1], ""⟩]⟩ := by
+  refine ⟨⟨by decide, by decide⟩, ?_⟩
+  intro q hq
+  simp at hq; subst hq
+  show _ = false
+  decide
+
+/-- non-vacuity: a two-name SAN and a two-OID EKU meet the hypotheses -/
+example : (encList ([Cert.GeneralName.ip 127 0 0 1, .ip 10 0 0 1].map Cert.GeneralName.marshal)).length < 2 ^ 64 := by decide
+example : ∀ o ∈ [[1,3,6,1,5,5,7,3,1], [2,5,29,37,0]], ExtRound.OidOk o := by
+  intro o ho; simp at ho; rcases ho with rfl | rfl <;> exact ⟨by decide, by decide⟩
 
 end C07
